@@ -40,7 +40,11 @@ func shrinkModel(r *Result) {
 		if len(extra) == 0 {
 			return
 		}
-		script := strings.Replace(r.Script, "(check-sat)\n(get-model)\n", strings.Join(extra, "\n")+"\n(check-sat)\n(get-model)\n", 1)
+		src := r.Script
+		if r.Candidate {
+			src = r.ScriptQF
+		}
+		script := strings.Replace(src, "(check-sat)\n(get-model)\n", strings.Join(extra, "\n")+"\n(check-sat)\n(get-model)\n", 1)
 		file := filepath.Join(dir, fmt.Sprintf("s%d.smt2", k))
 		os.WriteFile(file, []byte(script), 0644)
 		st, out, _ := runSolver(solvers[0], file, 5)
